@@ -56,6 +56,10 @@ func (t *Thread) Label() string { return t.label }
 type Options struct {
 	MaxSteps int // 0 => 2,000,000
 	Trace    bool
+	// SwitchChoice: when the running thread blocks and several threads are runnable, demoting the
+	// one that would go next is offered as a deviation too (small scenarios only: the number of
+	// such points is large in whole-broker executions)
+	SwitchChoice bool
 }
 
 type Result struct {
@@ -146,6 +150,20 @@ func Run(ch Chooser, opt Options, main func()) *Result {
 			if s.choose(&c) == 1 {
 				s.minPrio--
 				s.running.prio = s.minPrio
+				en = s.enabled(en[:0])
+				t = en[0]
+			}
+		} else if len(en) > 1 && en[0] != s.running && !en[0].low && en[0].prio == 0 && en[1].prio == 0 && !en[1].low && opt.SwitchChoice {
+			// the running thread blocked (or ended): by default the thread that has been runnable
+			// longest goes next; as a deviation, that thread is demoted and the next one goes first
+			// (two messages arriving at two servers, two waiters of one lock: either order)
+			c := Choice{Kind: 'w', N: 2, Preempt: true, Sig: sigOf(en)}
+			if opt.Trace {
+				c.Label = labelsOf(en)
+			}
+			if s.choose(&c) == 1 {
+				s.minPrio--
+				en[0].prio = s.minPrio
 				en = s.enabled(en[:0])
 				t = en[0]
 			}
